@@ -378,7 +378,7 @@ def check_k4_roles(ctx, rep, roles: Roles):
     return n
 
 
-def check_compare_languages(ctx, rep, f):
+def _check_compare_languages_syntactic(ctx, rep, f):
     """inside compare_languages: extra words (A1 - A2) are reported first as 'should not be accepted', missing ones
     (A2 - A1) as 'should be accepted'; the reported word has minimal length."""
     fx = ctx.facts(f)
@@ -670,3 +670,70 @@ def check_k9(ctx, rep, f, roles: Roles):
         rep.holds(RULE + '.K9', f, 'def ' + f.name, 'answer labels meet reference-derived names only through the decoder {}()'.format(sorted(dec)[0]))
         n = 1
     return n
+
+
+
+def check_compare_languages(ctx, rep, f):
+    """K4 / K5 for compare_languages(answer, reference), decided on a finite model with the analyser's evaluator: all 256
+    pairs of subsets of the words {'', 'a', 'b', 'ab'}.  Required: no feedback exactly when the two sets are equal;
+    otherwise one message naming a word that really lies in the difference it is reported for ("should not be accepted":
+    in answer - reference, "should be accepted": in reference - answer) and is of minimal length in that difference (the
+    empty word printed as the epsilon character); the arguments are left untouched.  The function only forms set
+    differences and compares lengths, so four words of three lengths cover its case distinctions.  Outside the evaluator's
+    fragment the syntactic form of the rule is used."""
+    import itertools
+    import re as _re
+    from ..miniexec import Interp, Raised
+    from ..abseval import Unsupported
+    words = ['', 'a', 'b', 'ab']
+    subsets = [set(c) for k in range(len(words) + 1) for c in itertools.combinations(words, k)]
+    bad = None
+    runs = 0
+    try:
+        for A1 in subsets:
+            for A2 in subsets:
+                a1, a2 = set(A1), set(A2)
+                try:
+                    r = Interp(ctx).call(f, [a1, a2])
+                except Raised as ex:
+                    bad = 'for the answer {} and the reference {} the comparison raises {}'.format(sorted(A1), sorted(A2), ex.name)
+                    break
+                runs += 1
+                show = lambda S: '{' + ', '.join(repr(w) for w in sorted(S)) + '}'
+                if a1 != A1 or a2 != A2:
+                    bad = 'the comparison changes the language it was given ({} became {})'.format(show(A1 if a1 != A1 else A2), show(a1 if a1 != A1 else a2))
+                    break
+                if not isinstance(r, list) or not all(isinstance(x, str) for x in r):
+                    raise Unsupported('feedback is not a list of messages')
+                if A1 == A2:
+                    if r:
+                        bad = 'equal languages {} get the feedback {!r}'.format(show(A1), r[0])
+                        break
+                    continue
+                if not r:
+                    bad = 'the answer {} and the reference {} differ, but no feedback is given (the checker prints OK)'.format(show(A1), show(A2))
+                    break
+                m = _re.search(r"word '(.*?)' should (not )?be accepted", r[0])
+                if len(r) != 1 or not m:
+                    raise Unsupported('form of the feedback message: {!r}'.format(r[0]))
+                w = '' if m.group(1) in ('ε', '_') else m.group(1)
+                diff = (A1 - A2) if m.group(2) else (A2 - A1)
+                kind = 'should not be accepted' if m.group(2) else 'should be accepted'
+                if w not in diff:
+                    bad = 'for the answer {} and the reference {} the feedback says that {!r} {}, but that word is {}'.format(
+                        show(A1), show(A2), w or 'ε', kind, 'in both languages' if (w in A1 and w in A2) else ('in neither language' if (w not in A1 and w not in A2) else 'on the other side (wrong polarity)'))
+                    break
+                if len(w) != min(len(x) for x in diff):
+                    bad = 'for the answer {} and the reference {} the feedback names {!r}, but the shorter word {!r} is in the same difference: the counterexample is not of minimal length'.format(
+                        show(A1), show(A2), w, min(diff, key=len) or 'ε')
+                    break
+            if bad:
+                break
+    except Unsupported as e:
+        rep.note('{}: finite-model evaluation not applicable ({}); syntactic rule used'.format(f.short, e))
+        return _check_compare_languages_syntactic(ctx, rep, f)
+    if bad:
+        rep.violates(RULE + '.K4', f, 'def ' + f.name, bad)
+    else:
+        rep.holds(RULE + '.K4', f, 'def ' + f.name, 'on all {} pairs of languages over four words: feedback exactly when the languages differ, the named word lies in the difference it is reported for (right polarity)'.format(runs))
+        rep.holds(RULE + '.K5', f, 'def ' + f.name, 'the named word is of minimal length in its difference on all {} pairs'.format(runs))
